@@ -41,6 +41,8 @@ func runC04(c *Check, tier string) {
 	shareRule(c, "R04k", "every path to a cache hit passes the branch on which the looked-up target result is non-nil (the hit path dereferences it on a worker goroutine; same obligation as R13a)", 1, "R13a", func(sub *Check) { ruleR13a(sub, analyseGate(sub, "R13a")) }, func(k string) bool { return strings.Contains(k, "result-found") })
 	// round 7: a traversal that enumerates paths never finishes on a deep diamond: for the user the build hangs
 	shareRule(c, "R04q", "every recursive or worklist traversal over graph adjacency on the build path visits a node once (same obligations as R19a): work bounded by nodes + edges, so analysis and selection return", 6, "R19a", func(sub *Check) { ruleTraversals(sub, "R19a", false) }, nil)
+	// round 8: element locks are released per element
+	ruleNoDeferredUnlockInLoop(c, "R04r", "execution", "caching", "output", "dag", "loading", "worker", "hashing", "maps")
 }
 
 // ruleSemaphorePairing (shared with C18): every acquired slot of a counting semaphore — a successful
